@@ -540,8 +540,8 @@ impl Check for C10 {
         prim + self.reach_runs()
             + self.indep_runs()
             + match tier {
-                Tier::Quick => 400_000,
-                Tier::Thorough => 40_000_000,
+                Tier::Quick => 3_000_000,
+                Tier::Thorough => 400_000_000,
             }
     }
 
